@@ -52,6 +52,14 @@ func TestMain(m *testing.M) {
 			"secp256k1 point or BER length form for Data) and 0-1 on the Noise payload message, for every remote key type (RSA weighted double), both verifying roles and "+
 			"expected peer empty / M's ID / another ID / the alias ID obtained by hashing the presented bytes / check disabled; judged by the identity oracle only "+
 			"(completion => RemotePeer() is the canonical ID of M, RemotePublicKey() is M's key, the named peer is that ID). "+
+			"N: the NAMED (expected) peer is an arbitrary byte string, not only the ID of some key: next to empty / the genuine ID / the well-formed ID of "+
+			"another key, a non-empty string that is not the genuine ID -- the genuine ID truncated (front or back, any length), with 1-3 stray bytes appended / "+
+			"prepended, with its multihash code or length byte corrupted, with one digest bit flipped, a free-form label (\"victim\", the ID's base58 or hex text), "+
+			"arbitrary 1-48 bytes; two fixed representatives per class are enumerated in the honest matrix (Noise and TLS, every key-type pair, naming side = "+
+			"initiator or responder) and drawn members go through SecureOutbound / SecureInbound (TestHonestRandom, also with the Noise check disabled), the upgrader "+
+			"in both directions, Identity.ConfigForPeer under plain crypto/tls the way QUIC / WebTransport use it (dialer config for the named peer, listener config "+
+			"per connection), the QUIC transport's Dial in its three roles and the swarm's DialPeer over the real upgrader; oracle: a side that named a non-empty ID "+
+			"completes only if the genuine remote ID is byte-identical to it (label named-wrong:<path>/<direction>/<not-a-multihash|well-formed-multihash>). "+
 			"A case is NON-TRIVIAL when a mismatch / edit / substitution is actually present (not the honest "+
 			"baseline, and the edit hit and changed a frame); two cases are DISTINCT when (scenario, protocol, key types, role, settings, operator, "+
 			"frame, position) differ.",
